@@ -418,3 +418,257 @@ Proof.
   rewrite !Rmax_right by lra.
   unfold delta19, eta19, u32, u64. lra.
 Qed.
+
+(* ================================================================== *)
+(* without per-segment hypotheses: every segment of a curve of exact   *)
+(* length <= 2^40, the near-zero guard included                        *)
+(* ================================================================== *)
+
+From RM Require Import Proofs.InterpIEEEFrac.
+
+Lemma Forall2_nth_l {A B} (Rl : A -> B -> Prop) xs cs : Forall2 Rl xs cs ->
+  forall k x, nth_error xs k = Some x -> exists c, nth_error cs k = Some c /\ Rl x c.
+Proof.
+  induction 1 as [|x0 c0 xs cs H0 _ IH]; intros [|k] x Hx; try discriminate.
+  - cbn in Hx. inversion Hx; subst. exists c0. split; [reflexivity|exact H0].
+  - cbn in Hx. exact (IH k x Hx).
+Qed.
+
+(* the conclusions of the global theorems from the distance of the two exact points *)
+Lemma near_points (qa qb : Pos) (Pa Pb : P2) Eax Eay Ebx Eby G :
+  Rabs (B2R (px qa) - fst Pa) <= Eax -> Rabs (B2R (py qa) - snd Pa) <= Eay ->
+  Rabs (B2R (px qb) - fst Pb) <= Ebx -> Rabs (B2R (py qb) - snd Pb) <= Eby ->
+  edist Pa Pb <= G ->
+  Rabs (B2R (px qa) - B2R (px qb)) <= G + Eax + Ebx /\
+  Rabs (B2R (py qa) - B2R (py qb)) <= G + Eay + Eby /\
+  edist (R2 qa) (R2 qb) <= G + (Eax + Eay) + (Ebx + Eby).
+Proof.
+  intros Bax Bay Bbx Bby Core.
+  assert (Cx : Rabs (fst Pa - fst Pb) <= edist Pa Pb).
+  { pose proof (edist_sq Pa Pb) as Q. pose proof (edist_ge0 Pa Pb) as Q0.
+    apply Rsqr_incr_0_var; [|exact Q0]. rewrite <- Rsqr_abs. unfold Rsqr.
+    pose proof (pow2_ge_0 (snd Pb - snd Pa)). nra. }
+  assert (Cy : Rabs (snd Pa - snd Pb) <= edist Pa Pb).
+  { pose proof (edist_sq Pa Pb) as Q. pose proof (edist_ge0 Pa Pb) as Q0.
+    apply Rsqr_incr_0_var; [|exact Q0]. rewrite <- Rsqr_abs. unfold Rsqr.
+    pose proof (pow2_ge_0 (fst Pb - fst Pa)). nra. }
+  split; [|split].
+  - replace (B2R (px qa) - B2R (px qb)) with ((B2R (px qa) - fst Pa) + (fst Pa - fst Pb) + - (B2R (px qb) - fst Pb)) by ring.
+    eapply Rle_trans; [apply Rabs_triang|]. eapply Rle_trans; [apply Rplus_le_compat_r, Rabs_triang|].
+    rewrite Rabs_Ropp. lra.
+  - replace (B2R (py qa) - B2R (py qb)) with ((B2R (py qa) - snd Pa) + (snd Pa - snd Pb) + - (B2R (py qb) - snd Pb)) by ring.
+    eapply Rle_trans; [apply Rabs_triang|]. eapply Rle_trans; [apply Rplus_le_compat_r, Rabs_triang|].
+    rewrite Rabs_Ropp. lra.
+  - pose proof (edist_triangle (R2 qa) Pa (R2 qb)) as T1. pose proof (edist_triangle Pa Pb (R2 qb)) as T2.
+    pose proof (edist_le_l1 (R2 qa) Pa) as La. cbn [R2 fst snd] in La.
+    pose proof (edist_le_l1 Pb (R2 qb)) as Lb. cbn [R2 fst snd] in Lb.
+    rewrite (Rabs_minus_sym (fst Pb)), (Rabs_minus_sym (snd Pb)) in Lb. lra.
+Qed.
+
+Definition guard19 (l0 l1 : F64) : bool := D.le (D.abs (D.sub l0 l1)) D.eps.
+
+(* the exact point a distance d on segment (p0, p1), lengths (l0, l1), stands
+   for: the vertex p0 when the code's near-zero guard fires, the exact
+   interpolated point otherwise *)
+Definition exact_pt (p0 p1 : Pos) (l0 l1 d : F64) : P2 :=
+  if guard19 l0 l1 then R2 p0 else interp_P p0 p1 l0 l1 d.
+
+Section Located.
+  Variable path : list Pos.
+  Hypothesis Hc : Forall (fun p => coord_le p 20) path.
+  Hypothesis Hs : segs_ok path.
+  Hypothesis Hn : (length path <= 2 ^ 50)%nat.
+  Hypothesis Ht40 : poly_len (map R2 path) <= pw 40.
+  Local Notation lens := (natural path D.zero).
+
+  Lemma Ht1000 : poly_len (map R2 path) <= pw 1000.
+  Proof. eapply Rle_trans; [exact Ht40|apply bpow_le; zl]. Qed.
+
+  Lemma natural_nth_bound k l : nth_error lens k = Some l -> fin l /\ 0 <= B2R l <= pw 41.
+  Proof.
+    intros Hl. pose proof (natural_lengths_error path Hc Hs Hn Ht1000) as Hok.
+    destruct (Forall2_nth_l _ _ _ Hok k l Hl) as (c & Hcc & (Fl & Rl)).
+    unfold cumlen in Hcc. destruct (cum_g_nth_bounds _ _ _ _ Hcc) as (Hc0 & Hc1).
+    fold (poly_len (map R2 path)) in Hc1.
+    destruct (alpha_small (length path) Hn) as (_ & Au).
+    split; [exact Fl|]. split; [apply (rel_nonneg _ _ _ Rl); [lra|exact Hc0]|].
+    pose proof (rel_abs_le _ _ _ Rl) as A. rewrite (Rabs_pos_eq c) in A by exact Hc0.
+    eapply Rle_trans; [apply Rle_abs|]. eapply Rle_trans; [exact A|].
+    change 41%Z with (40 + 1)%Z. rewrite bpow_plus. change (pw 1) with 2.
+    pose proof (bpow_gt_0 radix2 40). nra.
+  Qed.
+
+  Lemma natural_sorted_fin : sorted_fin lens.
+  Proof.
+    split.
+    - apply Forall_forall. intros x Hx. destruct (In_nth_error _ _ Hx) as (k & Hk).
+      exact (proj1 (natural_nth_bound k x Hk)).
+    - intros a b x y Hab Ha Hb. destruct (Nat.eq_dec a b) as [E|NE].
+      + subst b. rewrite Ha in Hb. inversion Hb; subst. lra.
+      + assert (Hb' : (b < length lens)%nat) by (apply nth_error_Some; congruence).
+        rewrite natural_length in Hb'.
+        assert (Hbp : (b < length path)%nat) by lia.
+        destruct (nth_error path a) as [pa|] eqn:Epa; [|apply nth_error_None in Epa; lia].
+        destruct (nth_error path b) as [pb|] eqn:Epb; [|apply nth_error_None in Epb; lia].
+        replace b with (a + (b - a))%nat in Epb, Hb by lia.
+        exact (proj1 (chain_vertices path Hc Hs Hn Ht1000 (b - a) a pa pb x y Epa Epb Ha Hb)).
+  Qed.
+
+  (* a segment on which the guard of the code fires is degenerate *)
+  Lemma guard_true_degenerate k p0 p1 l0 l1 :
+    nth_error path k = Some p0 -> nth_error path (S k) = Some p1 ->
+    nth_error lens k = Some l0 -> nth_error lens (S k) = Some l1 ->
+    guard19 l0 l1 = true -> R2 p0 = R2 p1.
+  Proof.
+    intros H0 H1 L0 L1 Hg.
+    destruct (chord_le_length_increment_ieee path k p0 p1 l0 l1 Hc Hs Hn Ht1000 H0 H1 L0 L1) as (F0 & F1 & (C0 & C1) & Ch).
+    destruct (natural_nth_bound _ _ L1) as (_ & _ & U1).
+    destruct (Rlt_or_le (B2R l1 - B2R l0) (pw (-51))) as [Hlt|Hge].
+    - destruct (segs_ok_nth path k p0 p1 Hs H0 H1) as [E|E]; [exact E|exfalso].
+      assert (P51 : pw (-51) <= / 1000000000000000) by (cbn; lra).
+      assert (P41 : pw 41 = 2199023255552) by (cbn; lra).
+      assert (P10 : pw (-10) = / 1024) by (cbn; lra).
+      rewrite P41 in U1. rewrite P10 in E. unfold delta19, eta19, u32, u64 in Ch. lra.
+    - exfalso. unfold guard19 in Hg. rewrite (guard_false_of_gap l0 l1 F0 F1 C0 Hge) in Hg. discriminate.
+  Qed.
+
+  (* the position on segment i at a distance d between its two lengths: the
+     computed point is within E19 of [exact_pt], and [exact_pt] is not farther
+     from the two vertices than the lengths say *)
+  Lemma segment_point i d p0 p1 l0 l1 :
+    nth_error path i = Some p0 -> nth_error path (S i) = Some p1 ->
+    nth_error lens i = Some l0 -> nth_error lens (S i) = Some l1 ->
+    fin d -> B2R l0 <= B2R d <= B2R l1 ->
+    let P := exact_pt p0 p1 l0 l1 d in
+    exists q, interpolate_vertices path lens (S i) d = Done q /\
+      Rabs (B2R (px q) - fst P) <= E19 (B2R (px p0)) (B2R (px p1)) /\
+      Rabs (B2R (py q) - snd P) <= E19 (B2R (py p0)) (B2R (py p1)) /\
+      edist (R2 p0) P <= (1 + delta19) * (B2R d - B2R l0) + eta19 * B2R l1 /\
+      edist P (R2 p1) <= (1 + delta19) * (B2R l1 - B2R d) + eta19 * B2R l1.
+  Proof.
+    intros H0 H1 L0 L1 Fd Hd P.
+    destruct (chord_le_length_increment_ieee path i p0 p1 l0 l1 Hc Hs Hn Ht1000 H0 H1 L0 L1) as (F0 & F1 & (C0 & C1) & Ch).
+    pose proof delta19_pos as Pd. pose proof eta19_pos as Pe.
+    assert (Z0 : 0 <= eta19 * B2R l1) by (apply Rmult_le_pos; lra).
+    unfold P, exact_pt. destruct (guard19 l0 l1) eqn:Hg.
+    - pose proof (guard_true_degenerate i p0 p1 l0 l1 H0 H1 L0 L1 Hg) as Edeg.
+      exists p0. split.
+      + rewrite (interpolate_between path lens i d p0 p1 l0 l1 H0 H1 L0 L1). unfold guard19 in Hg. rewrite Hg. reflexivity.
+      + cbn [R2 fst snd]. rewrite !Rminus_diag_eq, Rabs_R0 by reflexivity.
+        split; [apply E19_nonneg|]. split; [apply E19_nonneg|].
+        rewrite <- Edeg, edist_refl. split; nra.
+    - assert (Hh : interp_hyps p0 p1 l0 l1 d).
+      { rewrite Forall_forall in Hc.
+        destruct (Hc p0 (nth_error_In _ _ H0)) as (Bx0 & By0). destruct (Hc p1 (nth_error_In _ _ H1)) as (Bx1 & By1).
+        unfold interp_hyps. repeat (split; [assumption|]). exact Hg. }
+      pose proof (interp_hyps_lt _ _ _ _ _ Hh) as Hlt.
+      destruct (interpolation_ieee_bound path lens i d p0 p1 l0 l1 H0 H1 L0 L1 Hh) as (q & Hq & _ & _ & Bx & By).
+      exists q. split; [exact Hq|]. split; [exact Bx|]. split; [exact By|].
+      assert (EP0 : edist (R2 p0) (interp_P p0 p1 l0 l1 d) = edist (R2 p0) (R2 p1) * (Rabs (B2R l0 - B2R d) / (B2R l1 - B2R l0))).
+      { unfold interp_P, R2 at 1.
+        rewrite <- (interp_R_at_d0 (B2R (px p0)) (B2R (px p1)) (B2R l0) (B2R l1)) at 1 by (apply Rgt_not_eq; lra).
+        rewrite <- (interp_R_at_d0 (B2R (py p0)) (B2R (py p1)) (B2R l0) (B2R l1)) at 1 by (apply Rgt_not_eq; lra).
+        apply (interp2_edist _ _ _ _ _ _ _ _ Hlt). }
+      assert (EP1 : edist (interp_P p0 p1 l0 l1 d) (R2 p1) = edist (R2 p0) (R2 p1) * (Rabs (B2R d - B2R l1) / (B2R l1 - B2R l0))).
+      { unfold interp_P, R2 at 1.
+        rewrite <- (interp_R_at_d1 (B2R (px p0)) (B2R (px p1)) (B2R l0) (B2R l1)) at 2 by (apply Rgt_not_eq; lra).
+        rewrite <- (interp_R_at_d1 (B2R (py p0)) (B2R (py p1)) (B2R l0) (B2R l1)) at 2 by (apply Rgt_not_eq; lra).
+        apply (interp2_edist _ _ _ _ _ _ _ _ Hlt). }
+      rewrite (Rabs_left1 (B2R l0 - B2R d)) in EP0 by lra.
+      rewrite (Rabs_left1 (B2R d - B2R l1)) in EP1 by lra.
+      pose proof (slope_part _ (B2R l1 - B2R l0) (- (B2R l0 - B2R d)) (1 + delta19) (eta19 * B2R l1)
+                    ltac:(lra) ltac:(lra) Z0 Ch ltac:(lra)) as S0.
+      pose proof (slope_part _ (B2R l1 - B2R l0) (- (B2R d - B2R l1)) (1 + delta19) (eta19 * B2R l1)
+                    ltac:(lra) ltac:(lra) Z0 Ch ltac:(lra)) as S1.
+      rewrite <- EP0 in S0. rewrite <- EP1 in S1. split; lra.
+  Qed.
+
+  (* two distances on the same segment *)
+  Lemma same_segment_points i a b p0 p1 l0 l1 :
+    nth_error path i = Some p0 -> nth_error path (S i) = Some p1 ->
+    nth_error lens i = Some l0 -> nth_error lens (S i) = Some l1 ->
+    B2R l0 <= B2R a <= B2R l1 -> B2R l0 <= B2R b <= B2R l1 ->
+    edist (exact_pt p0 p1 l0 l1 a) (exact_pt p0 p1 l0 l1 b)
+    <= (1 + delta19) * Rabs (B2R b - B2R a) + eta19 * B2R l1.
+  Proof.
+    intros H0 H1 L0 L1 Ha Hb.
+    destruct (chord_le_length_increment_ieee path i p0 p1 l0 l1 Hc Hs Hn Ht1000 H0 H1 L0 L1) as (F0 & F1 & (C0 & C1) & Ch).
+    pose proof delta19_pos as Pd. pose proof eta19_pos as Pe.
+    assert (Z0 : 0 <= eta19 * B2R l1) by (apply Rmult_le_pos; lra).
+    pose proof (Rabs_pos (B2R b - B2R a)) as Pab.
+    unfold exact_pt. destruct (guard19 l0 l1) eqn:Hg.
+    - rewrite edist_refl. nra.
+    - assert (Hlt : B2R l0 < B2R l1) by (apply guard_false_lt; [exact F0|exact F1|lra|exact Hg]).
+      unfold interp_P. rewrite (interp2_edist _ _ _ _ _ _ _ _ Hlt). fold (R2 p0) (R2 p1).
+      rewrite (Rabs_minus_sym (B2R b)).
+      assert (Tt : 0 <= Rabs (B2R a - B2R b) <= B2R l1 - B2R l0).
+      { split; [apply Rabs_pos|]. apply Rabs_le. lra. }
+      pose proof (slope_part _ (B2R l1 - B2R l0) _ (1 + delta19) (eta19 * B2R l1) ltac:(lra) Tt Z0 Ch ltac:(lra)).
+      lra.
+  Qed.
+
+  (* the exact points of two distances on segments i <= j *)
+  Lemma exact_pts_distance i j a b p0 p1 d0 d1 q0 q1 e0 e1 :
+    (i <= j)%nat ->
+    nth_error path i = Some p0 -> nth_error path (S i) = Some p1 ->
+    nth_error lens i = Some d0 -> nth_error lens (S i) = Some d1 ->
+    nth_error path j = Some q0 -> nth_error path (S j) = Some q1 ->
+    nth_error lens j = Some e0 -> nth_error lens (S j) = Some e1 ->
+    fin a -> fin b -> B2R d0 <= B2R a <= B2R d1 -> B2R e0 <= B2R b <= B2R e1 ->
+    edist (exact_pt p0 p1 d0 d1 a) (exact_pt q0 q1 e0 e1 b)
+    <= (1 + delta19) * Rabs (B2R b - B2R a) + INR (j - i + 1) * eta19 * B2R e1.
+  Proof.
+    intros Hij H0 H1 L0 L1 K0 K1 M0 M1 Fa Fb Ha Hb.
+    pose proof delta19_pos as Pd. pose proof eta19_pos as Pe.
+    destruct (Nat.eq_dec i j) as [Eij|Nij].
+    - subst j. rewrite K0 in H0. rewrite K1 in H1. rewrite M0 in L0. rewrite M1 in L1.
+      inversion H0; inversion H1; inversion L0; inversion L1; subst.
+      rewrite Nat.sub_diag. cbn [Nat.add INR]. rewrite Rmult_1_l.
+      exact (same_segment_points i a b p0 p1 d0 d1 K0 K1 M0 M1 Ha Hb).
+    - destruct (segment_point i a p0 p1 d0 d1 H0 H1 L0 L1 Fa Ha) as (_ & _ & _ & _ & _ & Sa).
+      destruct (segment_point j b q0 q1 e0 e1 K0 K1 M0 M1 Fb Hb) as (_ & _ & _ & _ & Sb & _).
+      destruct (chain_vertices path Hc Hs Hn Ht1000 (j - S i) (S i) p1 q0 d1 e0 H1
+                  ltac:(replace (S i + (j - S i))%nat with j by lia; exact K0) L1
+                  ltac:(replace (S i + (j - S i))%nat with j by lia; exact M0)) as (Cm & Chm).
+      set (n := (j - S i)%nat) in *.
+      set (Pa := exact_pt p0 p1 d0 d1 a) in *. set (Pb := exact_pt q0 q1 e0 e1 b) in *.
+      pose proof (edist_triangle Pa (R2 p1) Pb) as T1. pose proof (edist_triangle (R2 p1) (R2 q0) Pb) as T2.
+      destruct (natural_nth_bound _ _ L1) as (_ & Zd1 & _).
+      replace (j - i + 1)%nat with (S (S n)) by (unfold n; lia). rewrite !S_INR.
+      rewrite (Rabs_pos_eq (B2R b - B2R a)) by lra.
+      pose proof (pos_INR n) as Pn.
+      assert (Q1 : INR n * eta19 * B2R e0 <= INR n * eta19 * B2R e1).
+      { apply Rmult_le_compat_l; [apply Rmult_le_pos; lra|lra]. }
+      assert (Q2 : eta19 * B2R d1 <= eta19 * B2R e1) by (apply Rmult_le_compat_l; lra).
+      lra.
+  Qed.
+
+  (* the GLOBAL Lipschitz bound for two distances located on segments i <= j,
+     nothing assumed about the guard *)
+  Theorem global_lipschitz_segments_ieee i j a b p0 p1 d0 d1 q0 q1 e0 e1 :
+    (i <= j)%nat ->
+    nth_error path i = Some p0 -> nth_error path (S i) = Some p1 ->
+    nth_error lens i = Some d0 -> nth_error lens (S i) = Some d1 ->
+    nth_error path j = Some q0 -> nth_error path (S j) = Some q1 ->
+    nth_error lens j = Some e0 -> nth_error lens (S j) = Some e1 ->
+    fin a -> fin b -> B2R d0 <= B2R a <= B2R d1 -> B2R e0 <= B2R b <= B2R e1 ->
+    let Eax := E19 (B2R (px p0)) (B2R (px p1)) in
+    let Eay := E19 (B2R (py p0)) (B2R (py p1)) in
+    let Ebx := E19 (B2R (px q0)) (B2R (px q1)) in
+    let Eby := E19 (B2R (py q0)) (B2R (py q1)) in
+    let G := (1 + delta19) * Rabs (B2R b - B2R a) + INR (j - i + 1) * eta19 * B2R e1 in
+    exists qa qb,
+      interpolate_vertices path lens (S i) a = Done qa /\
+      interpolate_vertices path lens (S j) b = Done qb /\
+      Rabs (B2R (px qa) - B2R (px qb)) <= G + Eax + Ebx /\
+      Rabs (B2R (py qa) - B2R (py qb)) <= G + Eay + Eby /\
+      edist (R2 qa) (R2 qb) <= G + (Eax + Eay) + (Ebx + Eby).
+  Proof.
+    intros Hij H0 H1 L0 L1 K0 K1 M0 M1 Fa Fb Ha Hb Eax Eay Ebx Eby G.
+    destruct (segment_point i a p0 p1 d0 d1 H0 H1 L0 L1 Fa Ha) as (qa & Hqa & Bax & Bay & _).
+    destruct (segment_point j b q0 q1 e0 e1 K0 K1 M0 M1 Fb Hb) as (qb & Hqb & Bbx & Bby & _).
+    exists qa, qb. split; [exact Hqa|]. split; [exact Hqb|].
+    exact (near_points qa qb _ _ _ _ _ _ G Bax Bay Bbx Bby
+             (exact_pts_distance i j a b p0 p1 d0 d1 q0 q1 e0 e1 Hij H0 H1 L0 L1 K0 K1 M0 M1 Fa Fb Ha Hb)).
+  Qed.
+End Located.
